@@ -75,3 +75,10 @@ def rules(t, *a, **kw):
     out = _rules_C19_w5d(t, *a, **kw)
     out.append(W5.token_history_writers(t, "C19.k"))
     return out
+
+_rules_C19_w7 = rules
+def rules(t, *a, **kw):
+    import rules.wave7 as W7
+    out = _rules_C19_w7(t, *a, **kw)
+    out.append(W7.reply_behind_id_match(t, "C19.l"))
+    return out
